@@ -5,12 +5,20 @@ This implementation guarantees coba reproducibility independent of other generat
 
 import math
 import time
+import struct
 
 from math import floor
 from itertools import compress, accumulate, islice
 from operator import mul,add,lt
 from functools import partial
 from typing import Optional, Iterable, Sequence, Union, Tuple, Any
+
+def _next_below(x: float) -> float:
+    """The largest float below x (math.nextafter would do but needs python 3.9)."""
+    x = float(x)
+    if x == 0: return -5e-324
+    bits = struct.unpack('<q', struct.pack('<d', x))[0]
+    return struct.unpack('<d', struct.pack('<q', bits-1 if x > 0 else bits+1))[0]
 
 class CobaRandom:
     """A random number generator."""
@@ -59,7 +67,7 @@ class CobaRandom:
         value = min+(max-min)*next(self._randu)
 
         #the sum is rounded so it can land exactly on max when max-min is tiny next to abs(max)
-        return value if value < max else math.nextafter(max,min)
+        return value if value < max or max <= min else _next_below(max)
 
     def randoms(self, n:int, min:float=0, max:float=1) -> Sequence[float]:
         """Generate `n` uniform random numbers in [`min`,`max`).
@@ -86,9 +94,9 @@ class CobaRandom:
 
         out = list(islice(out,n)) if n is not None else out
 
-        if min != 0 and n is not None:
+        if min != 0 and n is not None and min < max:
             #the sums are rounded so they can land exactly on max when max-min is tiny next to abs(max)
-            below = math.nextafter(max,min)
+            below = _next_below(max)
             out = [ v if v < max else below for v in out ]
 
         return out
